@@ -18,7 +18,7 @@
       [declares_zero_width text]  some line is [sort bitvec 0];
       [props_1bit sy = false]     a bad state or constraint is not one bit wide. *)
 From Coq Require Import List String NArith Bool.
-From Patronus Require Import SysClosed Btor2Parse Btor2Witness Btor2ParseProofs Btor2Refine Btor2NoCrash.
+From Patronus Require Import SysClosed Btor2Parse Btor2Witness Btor2ParseProofs Btor2Refine Btor2NoCrash Btor2Fix.
 Import ListNotations.
 Open Scope N_scope.
 
@@ -66,6 +66,24 @@ Theorem C18_accepted_outside_known :
 Proof. exact text_accepted_outside_known. Qed.
 Print Assumptions C18_accepted_outside_known.
 
+(** ** the repaired reader ([Fix] = the shipped reader plus the checks of patches/000N-fix-btor2-*.diff:
+    a line that violates [line_pre], declares [sort bitvec 0], or is a bad/constraint over a node that is
+    not Boolean is reported as an error).  For it both halves of the property hold without exceptions. *)
+
+(** no crash: ANY text over the supported operators, both build profiles *)
+Theorem C18_no_crash_fix :
+  forall text, supported text = true -> forall dbg k, parse_text_v Fix dbg text <> PPanic k.
+Proof. exact text_no_crash_fix. Qed.
+Print Assumptions C18_no_crash_fix.
+
+(** accepted implies the FULL [sys_ok] (every expression well typed, init/next typed like their state,
+    bads and constraints one bit wide) and closed, both build profiles *)
+Theorem C18_accepted_well_typed_fix :
+  forall text dbg sy, supported text = true -> parse_text_v Fix dbg text = POk sy ->
+    sys_ok sy = true /\ sys_closed sy.
+Proof. exact text_accepted_ok_fix. Qed.
+Print Assumptions C18_accepted_well_typed_fix.
+
 (** Non-vacuity: a file with an array state initialised from a bit-vector, negated operands, a
     slice, an extension, a 129-bit decimal constant and a renamed state is outside every known
     class, is accepted in both profiles, and the accepted system satisfies the full [sys_ok]. *)
@@ -79,5 +97,13 @@ Definition example_text : string :=
 Example C18_example :
   supported example_text = true /\ known_class example_text = false /\ declares_zero_width example_text = false /\
   (exists sy, parse_text true example_text = POk sy /\ parse_text false example_text = POk sy /\
+              parse_text_v Fix true example_text = POk sy /\ parse_text_v Fix false example_text = POk sy /\
               props_1bit sy = true /\ sys_ok sy = true /\ List.length (s_states sy) = 2%nat).
 Proof. vm_compute. repeat split. eexists. repeat split. Qed.
+
+(** the repaired reader turns every crash witness and every accept witness of the shipped reader into a clean rejection *)
+Example C18_witnesses_rejected_by_fix :
+  forallb (fun w => let '(dbg, text, _) := w in
+                    match parse_text_v Fix dbg text with PErr => true | _ => false end) crash_witnesses = true /\
+  forallb (fun w => match parse_text_v Fix (fst w) (snd w) with PErr => true | _ => false end) accept_witnesses = true.
+Proof. vm_compute. split; reflexivity. Qed.
